@@ -147,6 +147,7 @@ func runUpdate(o *Out, spec *Spec, r *Ref, m *MethodSpec) {
 		srcStr, preStr := Format(src), Format(before)
 		args := make([]reflect.Value, ft.NumIn())
 		r.Ctx = map[reflect.Type]reflect.Value{}
+		WalkCtx = r.Ctx
 		var ctxSnaps []reflect.Value
 		for a := 0; a < ft.NumIn(); a++ {
 			switch a {
